@@ -378,7 +378,7 @@ def run(ctx):
     build_coq(ctx)
     ctx.prove(PROOF_MODULES, OBLIGATIONS)
     drv, model = build(ctx)
-    n = 700 if ctx.tier == "quick" else 12000
+    n = 420 if ctx.tier == "quick" else 12000
     cases = list(CORPUS) + class_cases() + gen_cases(ctx.rng, ctx.tier, n)
     explore(ctx, drv, model, cases)
     if ctx.broken and not ctx.violations:
